@@ -335,6 +335,10 @@ def static_contracts(u, N):
         f = tgt(nm)
         p, rec, vw = av(f)
         add(f, nm, [OBJ(p, rec)] + vw.wf(), [("array-in-bounds-or-reported", fits), ("pointer", "RET == %s + %d" % (vw.begin, off))], props={"C14", "C10", "C11"})
+    f = tgt("raw")
+    p, rec, vw = av(f)
+    rw = V(u, "RET", f.j["ret_rec"])
+    add(f, "raw", [OBJ(p, rec)] + vw.wf(), [("same-bytes-and-same-bound", "%s == %s && %s == %s" % (rw.begin, vw.begin, rw.end, vw.end))], props={"C14", "C10", "C11"})
     f = tgt("size")
     add(f, "size", [], [("N", "RET == %d" % N)], props={"C14", "C05"})
     f = tgt("size_bytes")
